@@ -7,6 +7,7 @@ CONSTANTS
     Modes = {"trusted", "user", "all"}
     RootChoices = {TRUE, FALSE}
     MaxFetched = 1000
+    MaxReports = 1000
     StatOnlyEmpty = FALSE
     RealWins = TRUE
     LandmarkHiding = "root"
